@@ -7,7 +7,7 @@ does (inside a safepoint — shared with C16.a), (d) the trampoline saves the op
 """
 import re
 
-from . import lib, shared, c01, c06
+from . import lib, shared, c01, c06, jitmodel
 from .lib import CheckError
 
 JIT_ALLOW = {
@@ -19,6 +19,13 @@ JIT_ALLOW = {
 
 
 def run(F, R, ctx):
+    _run(F, R, ctx)
+    int_tag_rule(F, R)
+    jitmodel.deopt_rule(F, R, "C02.x")
+    jitmodel.helper_panic_rule(F, R, "C07.j")
+
+
+def _run(F, R, ctx):
     R.rule("C02.a", "in the JIT translator's opcode match (the OpCode switch with the most arms in jit2::cgen) no arm for an "
                     "emittable opcode is a bare todo!/unimplemented!/panic!: with the JIT on, compiling a closure "
                     "containing it would abort the host where the interpreter runs the program")
@@ -104,3 +111,77 @@ def run(F, R, ctx):
            bool(lib.enum_switches(jl, "Result")),
            "jit_compile_lambda no longer matches on the Result of compile_bytecode (a failed compilation must leave the "
            "closure interpreted)", jl.loc(), sample=True)
+
+
+def _kv(fn):
+    kv = {}
+    for _, _, e in fn.events("kv"):
+        kv.setdefault(e[1], set()).add(e[2])
+    return kv
+
+
+def _consts(fn, kv, tok):
+    out = set()
+    if tok.startswith(("str:", "variant:", "const:")):
+        return {tok}
+    for a in lib.alias_sources(fn, tok):
+        m = re.match(r"^\(?\*?(_\d+)\)?$", a)
+        if m:
+            out |= kv.get(m.group(1), set())
+    return out
+
+
+def int_tag_rule(F, R):
+    R.rule("C02.i", "the JIT's type tags do not promise more than the producing code guarantees: InferredType::Int selects the "
+                    "int-specialised comparison / subtraction helpers, which assert (abort the host) on a non-fixnum operand, "
+                    "so a value tagged Int by the translator — push(value, Int), or a (value, Int) pair returned to a caller — "
+                    "is an immediate of the program (integer constant), never the result of a runtime helper call "
+                    "(call_function_returns_value*), whose result kind depends on the run-time operands")
+    tr = [f for n, f in F.fns.items() if "jit2::cgen::{impl FunctionTranslator}" in n]
+    if len(tr) < 50:
+        raise CheckError("anchor lost: methods of jit2::cgen FunctionTranslator (%d)" % len(tr))
+    n = 0
+    HELPER = r"FunctionTranslator\}::call_function_returns_value"
+    for fn in sorted(tr, key=lambda f: f.name):
+        kv = _kv(fn)
+        if not any("variant:InferredType::Int" in v for v in kv.values()):
+            continue
+        helper = {}
+        for i, b in fn.calls():
+            d = re.match(r"_\d+", b.get("dest") or "")
+            if d and re.search(HELPER, b["callee"]):
+                helper[d.group(0)] = b
+
+        def from_helper(tok):
+            for a in lib.alias_sources(fn, tok):
+                m = re.match(r"^\(?\*?(_\d+)\)?(\.\d+)?$", a)
+                if m and m.group(1) in helper:
+                    return helper[m.group(1)]
+            return None
+        pairs = []
+        for i, b in fn.calls():
+            if re.search(r"FunctionTranslator\}::push$", b["callee"]) and len(b["args"]) >= 3:
+                if "variant:InferredType::Int" in _consts(fn, kv, b["args"][2]):
+                    pairs.append((b["args"][1], b["line"], "push(value, Int)"))
+        # (value, Int) tuples / StackValue { value, inferred_type: Int }
+        fields = {}
+        for blk in fn.blocks:
+            for e in blk["e"]:
+                if e[0] == "mv" and re.match(r"^_\d+\.\d+$", e[1]):
+                    fields.setdefault(e[1].split(".")[0], {})[e[1].split(".")[1]] = e[2]
+        for base, fl in fields.items():
+            for k, src in fl.items():
+                if "variant:InferredType::Int" in _consts(fn, kv, src.strip("()*")):
+                    for k2, src2 in fl.items():
+                        if k2 != k:
+                            pairs.append((src2.strip("()*"), fn.line, "(value, Int) aggregate"))
+        for tok, line, what in pairs:
+            n += 1
+            h = from_helper(tok)
+            names = sorted(x[4:] for x in _consts(fn, kv, h["args"][1])) if h and len(h["args"]) > 1 else []
+            R.inst("C02.i", "%s / %s %s" % (fn.short(), what, ("of helper %s" % "|".join(names)) if h else "#%d is an immediate" % n), h is None,
+                   "%s tags the result of the runtime helper %s as InferredType::Int (line %s): the helper's result is a "
+                   "flonum, ratnum or bignum for such operands, and the int-specialised helpers selected by the tag assert on "
+                   "a non-fixnum — the JIT-compiled function aborts the host where the interpreter returns a value" % (
+                       fn.short(), names or "(dynamic name)", line), fn.loc(line), sample={"helper": names})
+    R.floor("C02.i", "Int-tagged values in the JIT translator", n, 1)
